@@ -279,11 +279,12 @@ Proof.
   assert (HW : W = e1 ++ e2).
   { unfold W, whole_events. rewrite <- (parse_all_chunkings hm (cs1 ++ cs2) received eq_refl).
     now rewrite Hsp. }
-  rewrite all_empty_concat. fold received.
-  set (pre := if is_nil received then [] else [PRecv]).
-  assert (Hp : has_head pre = false) by (unfold pre; destruct (is_nil received); reflexivity).
+  rewrite all_empty_concat. unfold received in *.
+  set (pre := if is_nil (concat (cs1 ++ cs2)) then [] else [PRecv]).
+  assert (Hp : has_head pre = false) by (unfold pre; destruct (is_nil (concat (cs1 ++ cs2))); reflexivity).
   set (lostl := if lost then [PLost] else []).
   assert (Hl : has_head lostl = false) by (unfold lostl; destruct lost; reflexivity).
+  clearbody pre lostl.
   destruct t; cbn [asked_for].
   - (* TNever *) now rewrite HW.
   - (* TBetween *)
